@@ -213,8 +213,17 @@ fn run_case(sh: &mut Shard, case: u64, rng: &mut Rng) {
     d.mailbox_protocols = MBX_COE;
     d.sms = vec![SmDesc { start: 0x1000, len: ws, control: 0x26, enable: 1, usage: 1 }, SmDesc { start: 0x1400, len: rs, control: 0x22, enable: 1, usage: 2 }];
     let nreplies = 1 + rng.usize_below(3);
-    let replies: Vec<(String, Vec<u8>)> = if info_session { (0..nreplies).map(|_| gen_reply_of(rng, rs as usize, Some(6))).collect() } else if session { gen_segment_session(rng, rs as usize) } else { (0..nreplies).map(|_| gen_reply(rng, rs as usize)).collect() };
-    let refill = rng.chance(1, 4);
+    // a third of the SDO-info family: the device sends "more fragments follow" for ever, without any
+    // list data and with a fragments-left field that never counts down
+    let endless_info = info_session && rng.chance(1, 30);
+    let replies: Vec<(String, Vec<u8>)> = if endless_info {
+        let fl = (1 + rng.below(0xffff)) as u16;
+        let mut p = vec![0x00, 0x80, 0x82, 0x00];
+        p.extend_from_slice(&fl.to_le_bytes());
+        p.extend_from_slice(&1u16.to_le_bytes());
+        vec![("sdo-info-endless-empty-fragments".to_string(), mbx(p.len() as u16, 3, 1 + rng.below(7) as u8, &p))]
+    } else if info_session { (0..nreplies).map(|_| gen_reply_of(rng, rs as usize, Some(6))).collect() } else if session { gen_segment_session(rng, rs as usize) } else { (0..nreplies).map(|_| gen_reply(rng, rs as usize)).collect() };
+    let refill = endless_info || rng.chance(1, 4);
     let entry = if info_session { 3 + rng.below(2) } else if session { *rng.pick(&[1u64, 1, 5]) } else { rng.below(7) };
     if info_session {
         sh.count("family.sdo-info-tiny-mailbox");
